@@ -936,3 +936,70 @@ Proof.
     + intros m _ Hi. apply Hin. right. exact Hi.
     + intros n _. rewrite Ecs, Egr. auto.
 Qed.
+
+(* ---------- the scan ---------- *)
+Section Scan.
+  Variables (g : glob) (ls : list loc).
+  Hypothesis IA : InvA g ls.
+  Hypothesis IB : InvB g ls.
+
+  Lemma trans_U_ld t pr h its0 : nth_error ls t = Some (Loc pr U_ld h its0) ->
+    let a := own_rec (Loc pr U_ld h its0) in
+    thrB g t (Loc pr (match znx g a with Some n => U_own n (znx g a) | None => U_stn end) h its0).
+  Proof.
+    intros Hl a. set (l := Loc pr U_ld h its0) in *.
+    destruct (own_facts g ls IA IB t l Hl eq_refl) as (Ia & Oa & _). fold a in Ia, Oa.
+    pose proof (b_link _ _ IB a Ia (own_not_stale g ls IA IB t l Hl eq_refl eq_refl)) as L. unfold link_ok in L.
+    unfold thrB. destruct (znx g a) as [n|] eqn:E; cbn [at_]; change (own_rec _) with a.
+    - destruct L as (A & B & C). split; [|congruence]. split; [exact A|split; [exact B|]]. intros c Hc Hb. exfalso. apply (C c Hc Hb).
+    - exact L.
+  Qed.
+
+  Lemma trans_U_own t pr h its0 n cached : nth_error ls t = Some (Loc pr (U_own n cached) h its0) ->
+    zown g n = None -> thrB g t (Loc pr (U_nx n cached) h its0).
+  Proof.
+    intros Hl Ho. pose proof (b_thr _ _ IB t _ Hl) as T. unfold thrB in *. cbn [at_] in *. tauto.
+  Qed.
+
+  Lemma trans_U_nx t pr h its0 n cached : nth_error ls t = Some (Loc pr (U_nx n cached) h its0) ->
+    thrB g t (Loc pr (match znx g n with
+                      | Some m => U_own m cached
+                      | None => match cached with Some k => reclaim_at g k | None => U_stn end
+                      end) h its0).
+  Proof.
+    intros Hl. set (l := Loc pr (U_nx n cached) h its0) in *.
+    pose proof (b_thr _ _ IB t l Hl) as T. unfold thrB in T. cbn [at_ l] in T. destruct T as ((Sn & Slt & Sbt) & Hno & Hc).
+    destruct (own_facts g ls IA IB t l Hl eq_refl) as (Ia & Oa & _). set (a := own_rec l) in *.
+    pose proof (b_link _ _ IB n Sn (unowned_not_stale g ls IB n Sn Hno)) as Ln. unfold link_ok in Ln.
+    pose proof (b_link _ _ IB a Ia (own_not_stale g ls IA IB t l Hl eq_refl eq_refl)) as La. unfold link_ok in La.
+    destruct (znx g n) as [m|] eqn:En.
+    - destruct Ln as (A & B & C). unfold thrB. cbn [at_]. change (own_rec _) with a. split; [|exact Hc].
+      split; [exact A|split; [lia|]]. intros c Hc0 Hb.
+      destruct (Nat.lt_trichotomy (zsq g c) (zsq g n)) as [L1|[L1|L1]].
+      + exfalso. apply (C c Hc0). lia.
+      + assert (c = n) as -> by (apply (zsq_inj g ls _ _ IB (inlog_In _ _ Hc0) (inlog_In _ _ Sn) L1)). exact Hno.
+      + apply Sbt; [exact Hc0|lia].
+    - rewrite <- Hc in La. destruct cached as [k|].
+      + destruct La as (A & B & C).
+        assert (region g a k) as Rk.
+        { split; [exact A|split; [exact B|split; [exact C|]]]. intros c Hc0 Hlt.
+          destruct (Nat.lt_trichotomy (zsq g c) (zsq g n)) as [L1|[L1|L1]].
+          - exfalso. apply (Ln c Hc0 L1).
+          - assert (c = n) as -> by (apply (zsq_inj g ls _ _ IB (inlog_In _ _ Hc0) (inlog_In _ _ Sn) L1)). exact Hno.
+          - apply Sbt; [exact Hc0|lia]. }
+        apply thrB_reclaim_at; [exact Rk|].
+        (* k is not the pointer of another reclaimer: that one would have to own a record below or above a *)
+        destruct A as [A1 A2]. destruct (b_cs _ _ IB k A1) as [Q|[Q|(Q & u & nxt & D)]]; [exact Q|congruence|exfalso].
+        unfold pcof, locof in D. destruct (nth_error ls u) as [lu|] eqn:Eu; [|discriminate].
+        assert (u <> t) as Hut by (intros ->; rewrite Hl in Eu; inversion Eu; subst lu; discriminate).
+        assert (region_pc (at_ lu) = Some k) as Ru by (rewrite D; reflexivity).
+        pose proof (region_of g u lu k (b_thr _ _ IB u lu Eu) Ru) as (R1 & R2 & R3 & R4).
+        destruct (own_facts g ls IA IB u lu Eu (region_pc_unlock _ _ Ru)) as (Iu & Ou & _).
+        destruct (Nat.lt_trichotomy (zsq g (own_rec lu)) (zsq g a)) as [L1|[L1|L1]].
+        * apply (C (own_rec lu) Iu). lia.
+        * apply Hut. apply (own_distinct g ls IA IB u t lu l Eu Hl (region_pc_unlock _ _ Ru) eq_refl).
+          apply (zsq_inj g ls _ _ IB (inlog_In _ _ Iu) (inlog_In _ _ Ia) L1).
+        * apply Oa. apply R4; [exact Ia|exact L1].
+      + unfold thrB. cbn [at_]. exact La.
+  Qed.
+End Scan.
